@@ -318,10 +318,8 @@ class GeoBoxBase:
             tx, ty = map(int, pix_bbox.bbox[:2])
             roi = numpy.s_[ty : ty + ny, tx : tx + nx]
 
-        if isinstance(roi, int):
-            roi = (slice(roi, roi + 1), slice(None, None))
-
-        if isinstance(roi, slice):
+        if isinstance(roi, (int, slice)):
+            # a single row (negative counts from the end, like numpy) or a range of rows
             roi = (roi, slice(None, None))
 
         if len(roi) > 2:
